@@ -155,7 +155,17 @@ impl Finished {
             .join("\n");
         v.extend_from_slice(se.as_bytes());
         v.push(0);
-        v.extend_from_slice(&self.shim_log);
+        // a panic message is written to stderr in pieces, one of which is the OS thread id: the sizes of
+        // those writes vary with the number of digits of the id, so stderr writes are hashed without sizes
+        let log = String::from_utf8_lossy(&self.shim_log);
+        for l in log.lines() {
+            if l.starts_with("w err") && !l.contains("inject") {
+                v.extend_from_slice(b"w err\n");
+            } else {
+                v.extend_from_slice(l.as_bytes());
+                v.push(b'\n');
+            }
+        }
         fnv64(&v)
     }
 }
